@@ -73,9 +73,25 @@ def item_text(it, indent=""):
     return "\n".join(indent + l for l in it["src"].split("\n"))
 
 
+PRO_TEXT = {
+    "bom": ["\ufeff"],
+    "shebang": ["#!/usr/bin/env run-cargo-script\n", "#!/bin/sh\n", "#! /usr/bin/env -S cargo +nightly -Zscript\n"],
+    "inner": ["#![allow(dead_code)]\n", "#![cfg_attr(not(debug_assertions), windows_subsystem = \"windows\")]\n"],
+    "docinner": ["//! Crate level documentation.\n", "/*! block doc */\n"],
+    "blank": ["\n", "  \n\n"],
+    "comment": ["// a comment\n", "/* a block\n   comment */\n"],
+    "frontmatter": ["---\n[dependencies]\nserde = \"1\"\n---\n", "---cargo\npackage.edition = \"2021\"\n---\n"],
+}
+
+
 def file_bytes(n):
     if n["kind"] == "parsed":
-        return ("\n\n".join(item_text(it) for it in n["items"]) + "\n").encode("utf-8")
+        pro = "".join(PRO_TEXT[p][n.get("pro_variant", 0) % len(PRO_TEXT[p])] for p in n.get("pro", []))
+        body = "\n\n".join(item_text(it) for it in n["items"])
+        text = pro + body + ("\n" if body else "")
+        if n.get("crlf"):
+            text = text.replace("\n", "\r\n")
+        return text.encode("utf-8")
     if n["kind"] == "unparsable":
         return n["raw"].encode("utf-8")
     return bytes.fromhex(n["hex"])
@@ -168,17 +184,22 @@ def nm(name):
     return os.fsencode(name)
 
 
+def content_sx(n):
+    if n["kind"] == "parsed":
+        if n.get("pro"):
+            return ["source", list(n["pro"]), [item_sx(i) for i in n["items"]]]
+        return ["parsed", [item_sx(i) for i in n["items"]]]
+    return [n["kind"]]
+
+
 def node_sx(n):
     if n["t"] == "d":
         return ["d", nm(n["name"]), [node_sx(c) for c in n["ch"]]]
     if n["t"] == "l":
         if n["to"] == "file":
-            c = ["parsed", [item_sx(i) for i in n["items"]]] if n["kind"] == "parsed" else [n["kind"]]
-            return ["l", nm(n["name"]), ["file", c]]
+            return ["l", nm(n["name"]), ["file", content_sx(n)]]
         return ["l", nm(n["name"]), [n["to"]]]
-    if n["kind"] == "parsed":
-        return ["f", nm(n["name"]), ["parsed", [item_sx(i) for i in n["items"]]]]
-    return ["f", nm(n["name"]), [n["kind"]]]
+    return ["f", nm(n["name"]), content_sx(n)]
 
 
 def tree_sx(tree):
@@ -355,7 +376,33 @@ def gen_file(rng, name, malformed=False):
     names = list(FN_NAMES)
     rng.shuffle(names)
     names = names[:6]
-    return {"t": "f", "name": name, "kind": "parsed", "items": gen_items(rng, names)}
+    n = {"t": "f", "name": name, "kind": "parsed", "items": gen_items(rng, names)}
+    if rng.random() < 0.25:
+        n["pro"] = gen_prologue(rng)
+        n["pro_variant"] = rng.randrange(6)
+        if rng.random() < 0.08:
+            n["items"] = []                      # a file that consists of its prologue only
+    if rng.random() < 0.1:
+        n["crlf"] = True
+    return n
+
+
+PROLOGUES = [["shebang"], ["shebang"], ["bom"], ["bom", "shebang"], ["shebang", "bom"], ["inner"], ["shebang", "inner"],
+             ["blank", "shebang"], ["comment", "shebang"], ["inner", "shebang"], ["shebang", "shebang"], ["bom", "inner"],
+             ["blank"], ["comment"], ["docinner"], ["docinner", "inner", "comment"], ["frontmatter"], ["shebang", "frontmatter"],
+             ["bom", "blank", "comment"], ["comment", "bom"], ["bom", "shebang", "blank", "inner", "docinner", "comment"]]
+PRO_PIECES = ["bom", "shebang", "inner", "docinner", "blank", "comment", "frontmatter"]
+
+
+def gen_prologue(rng):
+    """What stands before the items: sequences syn::parse_file accepts and sequences it rejects.
+    Two byte order marks at the very start are outside the domain (content_ok)."""
+    if rng.random() < 0.7:
+        return list(rng.choice(PROLOGUES))
+    while True:
+        p = [rng.choice(PRO_PIECES) for _ in range(rng.randint(1, 4))]
+        if p[:2] != ["bom", "bom"]:
+            return p
 
 
 def insert(tree, dirs, node):
@@ -416,7 +463,7 @@ def gen_layout(rng, malformed=False, in_class_weight=0.12):
     return case
 
 
-CONTENT_KEYS = ("kind", "items", "raw", "hex")
+CONTENT_KEYS = ("kind", "items", "raw", "hex", "pro", "pro_variant", "crlf")
 LINK_RS_NAMES = ["shared.rs", "common.rs", "link.rs", "x.y.rs", "target.rs"]
 
 
@@ -550,6 +597,10 @@ def stats(case, acc):
                 ext = "rs" if n["name"].endswith(".rs") and len(n["name"]) > 3 else "other"
                 acc["file_ext:" + ext] = acc.get("file_ext:" + ext, 0) + 1
                 if n["kind"] == "parsed":
+                    if n.get("pro"):
+                        acc["prologue:" + "+".join(n["pro"])] = acc.get("prologue:" + "+".join(n["pro"]), 0) + 1
+                    if n.get("crlf"):
+                        acc["line_endings:crlf"] = acc.get("line_endings:crlf", 0) + 1
                     items(n["items"], True)
 
     def items(its, top):
